@@ -325,7 +325,7 @@ PANIC_RE = re.compile(r'^(panic: |goroutine \d+ \[|fatal error: )', re.M)
 class ToolRun:
     """Runs `wire <cmd>` over packages of a batch, chunked, bisecting crashes/hangs."""
 
-    def __init__(self, batch, wire, cmd='gen', chunk=150, timeout=120, args=(), single_timeout=40):
+    def __init__(self, batch, wire, cmd='gen', chunk=150, timeout=120, args=(), single_timeout=20):
         self.b, self.wire, self.cmd, self.chunk, self.timeout, self.args = batch, wire, cmd, chunk, timeout, list(args)
         self.single_timeout = single_timeout
         self.obs = {}   # dir -> observation
